@@ -15,6 +15,7 @@ import (
 	"github.com/samsarahq/thunder/sqlgen"
 	"github.com/samsarahq/thunder/thunderpb"
 	"verif/explore"
+	"verif/fix/fakesql"
 	"verif/harness/reg"
 )
 
@@ -287,6 +288,25 @@ func reps(v driver.Value, col *sqlgen.Column, noStr bool) []interface{} {
 
 func clsOf(t *tbl) string { return t.name }
 
+// layouts of n struct columns in the database table: reversed, rotated, and with unmapped columns (-1) in front and
+// in the middle
+func layouts(n int) [][]int {
+	var rev, rot, front, mid []int
+	for i := 0; i < n; i++ {
+		rev = append(rev, n-1-i)
+		rot = append(rot, (i+1)%n)
+	}
+	front = append(front, -1)
+	for i := 0; i < n; i++ {
+		front = append(front, i)
+		mid = append(mid, i)
+		if i == 0 {
+			mid = append(mid, -1, -1)
+		}
+	}
+	return [][]int{rev, rot, front, mid}
+}
+
 func run(rp *explore.Report, tier string) {
 	schema := sqlgen.NewSchema()
 	ts := tables(schema)
@@ -366,6 +386,34 @@ func run(rp *explore.Report, tier string) {
 					fail("binlog-roundtrip", clsOf(t), desc, "parseBinlogRow failed: %v", err)
 				} else if !t.eq(got, row) {
 					fail("binlog-roundtrip", clsOf(t), desc, "parseBinlogRow gave %+v", reflect.ValueOf(got).Elem().Interface())
+				}
+				// the database's column order need not be the struct's: columns are matched by name
+				if c == 0 && len(src) >= 2 {
+					for _, lay := range layouts(len(src)) {
+						fdb := fakesql.New()
+						ft := fdb.AddTable(table)
+						cols := append([]string{}, ft.Cols...)
+						ft.Cols = nil
+						var dbRow []interface{}
+						for _, ci := range lay {
+							if ci < 0 {
+								ft.Cols = append(ft.Cols, fmt.Sprintf("unmapped_%d", len(ft.Cols)))
+								dbRow = append(dbRow, int64(77))
+							} else {
+								ft.Cols = append(ft.Cols, cols[ci])
+								dbRow = append(dbRow, isrc[ci])
+							}
+						}
+						conn := fdb.Open()
+						got, err := livesql.VerifParseBinlogRowVia(conn, "testdb", table, dbRow)
+						fdb.Close()
+						rp.Cases++
+						if err != nil {
+							fail("binlog-roundtrip", clsOf(t)+"/column-order", desc, "database column order %v: parseBinlogRow failed: %v", ft.Cols, err)
+						} else if !t.eq(got, row) {
+							fail("binlog-roundtrip", clsOf(t)+"/column-order", desc, "database column order %v: parseBinlogRow gave %+v", ft.Cols, reflect.ValueOf(got).Elem().Interface())
+						}
+					}
 				}
 			}
 			// a filter made from the row's own column values matches the row
